@@ -21,6 +21,7 @@ from actor_abs import World, ok, err, upvar_types
 
 EC = 'datacake_eventual_consistency'
 METHODS = ('put', 'put_many', 'del', 'del_many')
+SCALE = [2]      # what a named size limit of the workspace evaluates to: 2 (three documents = above the limit, not a multiple) and 1 (two replicas = two waves)
 NODES = ['r1', 'r2']
 
 
@@ -179,7 +180,7 @@ def run_path(facts, meth, body, plan):
             else:
                 upv[i] = ('opaque', 'arg:' + ty)
         it = Interp(facts, Order({}), opaque_call=world.call, step_limit=400000)
-        it.scale_consts = 2      # (round 8, C06h: a bulk split into requests of a constant size; three documents stand for a batch above the limit)
+        it.scale_consts = SCALE[0]      # (round 8, C06h: a bulk split into requests of a constant size; three documents stand for a batch above the limit)
         it.poll_hook = world.poll
         it.unknown_call = actor_abs.lenient_unknown
         it.opaque_fields = True
@@ -212,6 +213,15 @@ def check_api(ctx, facts, rule):
         for meth in METHODS:
             for label, plan in SCEN:
                 results[(meth, label)] = run_path(facts, meth, paths[meth], plan)
+        # (round 8, C06i: the selected replicas contacted in waves of a constant size, the verdict taken from the last wave) the same table with
+        # every named limit at 1 — two replicas are two waves, three documents three requests; only evaluated when a limit is actually met
+        SCALE[0] = 1
+        try:
+            for meth in METHODS:
+                for label, plan in SCEN:
+                    results[(meth, label + ' [named size limits = 1]')] = run_path(facts, meth, paths[meth], plan)
+        finally:
+            SCALE[0] = 2
     except (Unmodelled, absint.NeedChoice, absint.PanicPath, IndexError, TypeError, KeyError, AttributeError, RecursionError) as e:
         return _fallback(ctx, rule, e)
     WANT_IDS = {'put': ('d1',), 'del': ('d1',), 'put_many': ('d1', 'd2', 'd3'), 'del_many': ('d1', 'd2', 'd3')}
@@ -220,7 +230,7 @@ def check_api(ctx, facts, rule):
     for meth in METHODS:
         body = paths[meth]
         site_ = '%s:%s' % (body.file, body.line)
-        for label, plan in SCEN:
+        for label, plan in SCEN + [(l_ + ' [named size limits = 1]', p_) for l_, p_ in SCEN]:
             bad = []
             seen = 0
             for log, res in results[(meth, label)]:
